@@ -338,8 +338,16 @@ struct Exec {
   Setup su;
   std::string emitter_kind;              // builder | compiler
   CodeHolder code;
-  x86::Builder xb; a64::Builder ab; x86::Compiler xc;
+  x86::Builder xb; a64::Builder ab; x86::Compiler xc; a64::Compiler ac;
   BaseBuilder* b = nullptr;
+  BaseCompiler* cc = nullptr;            // set when the emitter is a Compiler
+  // Compiler programs with functions / constant pools ("cmode")
+  struct PoolM { bool open = false; uint32_t label = 0; std::vector<std::vector<uint8_t>> items; std::vector<size_t> offs; };
+  struct Fn { int f, x, e; FuncNode* node; };
+  PoolM lpool, gpool;
+  std::vector<Fn> fns;
+  int cf = -1;                           // index of the function being generated
+  bool cmode = false;
   vj::W w;
   // identities
   std::map<BaseNode*, int> id_of_node;
@@ -356,7 +364,8 @@ struct Exec {
 
   Exec(FILE* f, const Setup& s, const std::string& kind) : out(f), su(s), emitter_kind(kind) {
     init_code(code, su);
-    if (su.is_a64()) b = &ab; else if (kind == "compiler") b = &xc; else b = &xb;
+    if (kind == "compiler") { if (su.is_a64()) { b = &ac; cc = &ac; } else { b = &xc; cc = &xc; } }
+    else if (su.is_a64()) b = &ab; else b = &xb;
     code.attach(b);
     b->add_diagnostic_options(DiagnosticOptions(su.diag));
     b->add_encoding_options(EncodingOptions(su.enc));
@@ -594,13 +603,99 @@ struct Exec {
     return id(node);
   }
 
+  // ---- Compiler: functions and constant pools ----
+  // new_const(scope, data, size): no node is added; the constant goes to the open local/global pool
+  bool new_const(unsigned scope, const std::vector<uint8_t>& data, BaseMem& mem_out) {
+    if (!usable() || !cc) return false;
+    cmode = true;
+    BaseMem m;
+    Error err;
+    if (su.is_a64()) {
+      a64::Mem mm = data.size() == 4 && (data[0] & 1) ? ac.new_uint32_const(ConstPoolScope(scope), uint32_t(data[0]) | uint32_t(data[1]) << 8 | uint32_t(data[2]) << 16 | uint32_t(data[3]) << 24)
+                                                      : ac.new_const(ConstPoolScope(scope), data.data(), data.size());
+      m = mm; err = mm.is_none() ? Error::kInvalidArgument : Error::kOk;
+    }
+    else {
+      x86::Mem mm = data.size() == 4 && (data[0] & 1) ? xc.new_dword_const(ConstPoolScope(scope), uint32_t(data[0]) | uint32_t(data[1]) << 8 | uint32_t(data[2]) << 16 | uint32_t(data[3]) << 24)
+                  : data.size() == 1 && (data[0] & 1) ? xc.new_byte_const(ConstPoolScope(scope), data[0])
+                                                      : xc.new_const(ConstPoolScope(scope), data.data(), data.size());
+      m = mm; err = mm.is_none() ? Error::kInvalidArgument : Error::kOk;
+    }
+    uint32_t label = m.base_id();
+    size_t off = size_t(uint32_t(m.offset_lo32()));
+    PoolM& pm = scope == 0 ? lpool : gpool;
+    if (err == Error::kOk) {
+      if (!pm.open) { pm.open = true; pm.label = label; pm.items.clear(); pm.offs.clear(); }
+      pm.items.push_back(data); pm.offs.push_back(off);
+    }
+    else rejected = true;
+    w.beginObj().kv("e", "NewConst").kv("r", err_name(err)).kv("scope", scope).kv("label", label).kv("off", (unsigned long long)off)
+     .kv("size", (unsigned long long)data.size()).kv("hasLabelBase", m.has_base_label());
+    w.bytes("data", data.data(), data.size());
+    proj();
+    w.endObj().emit(out);
+    after_step();
+    mem_out = m;
+    return err == Error::kOk;
+  }
+  bool in_function() const { return cf >= 0; }
+  void add_func() {
+    if (!usable() || !cc || cf >= 0) return;
+    cmode = true;
+    FuncNode* fn = cc->add_func(FuncSignature::build<void>());
+    w.beginObj().kv("e", "AddFunc").kv("r", fn ? "Ok" : "Error");
+    std::vector<int> ns; std::vector<Call> ps;
+    if (fn) {
+      BaseNode* nodes[3] = {fn, fn->exit_node(), fn->end_node()};
+      for (BaseNode* n : nodes) { ns.push_back(id(n)); ps.push_back(payload_of(n, su.reg_size())); }
+      model_insert_after(cur, ns);
+      cur = ns[0];
+      for (int i = 0; i < 3; i++) call_of[ns[i]] = ps[i];
+      call_of[ns[1]].fn = fn;                       // the exit label: the direct run emits the epilog after binding it
+      fns.push_back({ns[0], ns[1], ns[2], fn});
+      cf = int(fns.size()) - 1;
+    }
+    else rejected = true;
+    w.key("ns").beginArr(); for (int n : ns) w.val(n); w.endArr();
+    w.key("ps").beginArr(); for (auto& p : ps) write_call(w, p); w.endArr();
+    proj();
+    w.endObj().emit(out);
+    after_step();
+  }
+  void end_func() {
+    if (!usable() || !cc || cf < 0) return;
+    Fn fn = fns[cf];
+    if (idx(fn.e) < 0) return;
+    ConstPoolNode* pool = cc->_const_pools[uint32_t(ConstPoolScope::kLocal)];
+    Error err = cc->end_func();
+    int n = 0; Call payload;
+    if (err == Error::kOk) {
+      if (lpool.open) {
+        if (pool) { n = id(pool); payload = payload_of(pool, su.reg_size()); }
+        // the harness' abstract list: the local pool right before the function's end sentinel
+        if (n && idx(n) < 0) { seq.insert(seq.begin() + idx(fn.e), n); call_of[n] = payload; call_of[n].items = lpool.items; }
+        else diverged = true;
+        lpool.open = false;
+      }
+      cur = fn.e;
+      cf = -1;
+    }
+    else rejected = true;
+    w.beginObj().kv("e", "EndFunc").kv("r", err_name(err)).kv("n", n);
+    w.key("payload"); write_call(w, payload);
+    proj();
+    w.endObj().emit(out);
+    after_step();
+  }
+
   // ---- the end of the program ----
   void finalize() {
     if (finished) return;
     finished = true;
     if (diverged || seq.empty()) return;     // the trace is rejected at the diverging step already; a corrupted list is not walked further
-    // (1) what serialize_to hands over (third CodeHolder)
-    {
+    // (1) what serialize_to hands over (third CodeHolder); not for Compiler programs with functions / pools: their
+    //     list is completed by finalize() itself (pool flush, prolog/epilog)
+    if (!cmode) {
       CodeHolder c3; init_code(c3, su);
       x86::Assembler xa; a64::Assembler aa;
       BaseEmitter* a3 = su.is_a64() ? (BaseEmitter*)&aa : (BaseEmitter*)&xa;
@@ -619,6 +714,15 @@ struct Exec {
     // (2) the real finalize
     Error ferr = b->finalize();
     std::string dumpB = dump_code(code);
+    // the list after finalize(): where are the constant pools?
+    std::vector<uint32_t> final_pools; bool last_is_pool = false; uint32_t last_label = 0;
+    {
+      size_t bound = 4 * id_of_node.size() + 64, k = 0;
+      for (BaseNode* n = b->first_node(); n && k < bound; n = n->next(), k++) {
+        if (n->is_const_pool()) final_pools.push_back(n->as<ConstPoolNode>()->label_id());
+        if (!n->next()) { last_is_pool = n->is_const_pool(); if (last_is_pool) last_label = n->as<ConstPoolNode>()->label_id(); }
+      }
+    }
     // (3) direct run in the order of the abstract list
     CodeHolder c2; init_code(c2, su);
     x86::Assembler xa; a64::Assembler aa;
@@ -626,6 +730,7 @@ struct Exec {
     c2.attach(a2);
     a2->add_diagnostic_options(DiagnosticOptions(su.diag)); a2->add_encoding_options(EncodingOptions(su.enc));
     create_labels(a2, c2);
+    while (c2.label_count() < code.label_count()) { Label l = a2->new_label(); (void)l; }   // function / exit / pool labels
     int errD = 0; Error derr = Error::kOk;
     for (size_t i = 0; i < seq.size() && !errD; ) {
       const Call& c = call_of[seq[i]];
@@ -642,15 +747,23 @@ struct Exec {
       if (e != Error::kOk) { derr = e; errD = int(i) + 1; if (len > 1 && perr > int(i) && perr <= int(i + len)) errD = perr; }
       i += len;
     }
+    if (!errD && gpool.open) {
+      // the global pool: embed_const_pool(label, pool) after the last node
+      Call gc; gc.kind = KPool; gc.label = gpool.label; gc.items = gpool.items;
+      Error e = issue(a2, c2, gc);
+      if (e != Error::kOk) { derr = e; errD = int(seq.size()) + 1; }
+    }
     if (!errD && rejected) {
       Error e = issue(a2, c2, rejected_call);
-      if (e != Error::kOk) { derr = e; errD = int(seq.size()) + 1; }
+      if (e != Error::kOk) { derr = e; errD = int(seq.size()) + 1 + (gpool.open ? 1 : 0); }
     }
     std::string dumpD = dump_code(c2);
     w.beginObj().kv("e", "Finalize");
     w.key("order").beginArr(); for (int n : seq) w.val(n); w.endArr();
     w.kv("dB", fnv(dumpB)).kv("dD", fnv(dumpD)).kv("finOk", ferr == Error::kOk).kv("perr", perr).kv("errD", errD)
      .kv("errB", err_name(ferr)).kv("errDname", err_name(derr)).kv("rej", rejected);
+    w.kv("cmode", cmode).kv("lastIsPool", last_is_pool).kv("lastLabel", last_label);
+    w.key("finalPools").beginArr(); for (uint32_t l : final_pools) w.val(l); w.endArr();
     if (dumpB != dumpD) { w.kv("dumpB", dumpB.substr(0, 1500)).kv("dumpD", dumpD.substr(0, 1500)); }
     w.endObj().emit(out);
   }
@@ -665,6 +778,7 @@ struct Gen {
   vj::Rng& r;
   const Setup& su;
   unsigned nlabels;
+  bool no_cf = false;           // no control-flow instructions (Compiler programs with functions: keeps the CFG trivial)
   Gen(vj::Rng& rr, const Setup& s, unsigned nl) : r(rr), su(s), nlabels(nl) {}
   bool x64() const { return su.arch == Arch::kX64; }
 
@@ -727,7 +841,8 @@ struct Gen {
     };
     const size_t N = sizeof tab / sizeof tab[0];
     const T* t;
-    do { t = &tab[r.below(N)]; } while (t->x64only && !x64());
+    auto is_cf = [](const T* t) { return strchr(t->sig, 'L') || t->id == I::kIdRet || t->id == I::kIdInt3 || t->id == I::kIdJmp || t->id == I::kIdCall; };
+    do { t = &tab[r.below(N)]; } while ((t->x64only && !x64()) || (no_cf && is_cf(t)));
     return fill_x86(*t);
   }
   static size_t x86_template_count() { return 93; }
@@ -782,7 +897,7 @@ struct Gen {
       c.options = pick;
     }
     if (r.chance(1, 10)) c.options |= uint32_t(r.chance(1, 2) ? InstOptions::kOverwrite : InstOptions::kUnfollow);
-    if (r.chance(1, 40)) c.options |= (1u << (1 + r.below(31)));          // any option bit (may make the call invalid)
+    if (!no_cf && r.chance(1, 40)) c.options |= (1u << (1 + r.below(31)));          // any option bit (may make the call invalid)
     // extra register
     if (t.evexk && r.chance(1, 2)) {
       x86::KReg k = x86::k(1 + (unsigned)r.below(7));
@@ -813,7 +928,9 @@ struct Gen {
     auto D = [&]() { return a64::d((unsigned)r.below(32)); };
     auto L = [&]() { return Label((uint32_t)r.below(nlabels)); };
     auto set = [&](std::initializer_list<Operand_> ops) { unsigned n = 0; for (auto& o : ops) c.ops[n++].copy_from(o); c.nops = n; };
-    switch (r.below(24)) {
+    unsigned pick;
+    do { pick = (unsigned)r.below(24); } while (no_cf && ((pick >= 10 && pick <= 13) || pick == 15 || pick == 21));
+    switch (pick) {
       case 0: c.inst_id = I::kIdAdd; set({X(), X(), X()}); break;
       case 1: c.inst_id = I::kIdAdd; set({X(), X(), Imm(int64_t(r.below(4096)))}); break;
       case 2: c.inst_id = I::kIdSub; set({W(), W(), W()}); break;
@@ -1010,6 +1127,130 @@ static void random_exec(FILE* out, vj::Rng& r, unsigned x, unsigned steps) {
 }
 
 // ---------------------------------------------------------------------------------------------------------
+// cpool mode: Compiler programs with functions and local / global constant pools (physical registers only)
+// ---------------------------------------------------------------------------------------------------------
+static void cpool_exec(FILE* out, vj::Rng& r, unsigned x, unsigned steps) {
+  Setup su;
+  switch (x % 4) {
+    case 0: su.arch = Arch::kX64; break;
+    case 1: su.arch = Arch::kAArch64; break;
+    case 2: su.arch = Arch::kX86; break;
+    default: su.arch = Arch::kX64; break;
+  }
+  su.nsections = 1 + (unsigned)r.below(3);
+  su.nlabels = 4 + (unsigned)r.below(3);
+  su.nforeign = (unsigned)r.below(2);
+  if (r.chance(1, 6)) su.diag |= uint32_t(DiagnosticOptions::kValidateAssembler);
+  if (!su.is_a64() && r.chance(1, 4)) su.enc |= uint32_t(EncodingOptions::kOptimizeForSize);
+  Exec ex(out, su, "compiler");
+  unsigned nl = ex.label_count();
+  Gen g(r, su, nl);
+  g.no_cf = true;
+  std::vector<bool> bound(nl, false);
+  std::vector<std::vector<uint8_t>> consts;           // everything added so far (to draw duplicates from)
+
+  // nodes between a function's exit label (inclusive) and its end sentinel (exclusive): code placed there would follow the epilog
+  auto in_tail = [&](int n) {
+    int i = ex.idx(n);
+    for (auto& f : ex.fns) { int a = ex.idx(f.x), b = ex.idx(f.e); if (a >= 0 && b >= 0 && i >= a && i < b) return true; }
+    return false;
+  };
+  auto in_region = [&](int n) {
+    if (!n) return false;
+    int i = ex.idx(n);
+    for (auto& f : ex.fns) { int a = ex.idx(f.f), b = ex.idx(f.e); if (a >= 0 && b >= 0 && i >= a && i < b) return true; }
+    return false;
+  };
+  auto move_cursor = [&]() {
+    if (ex.seq.empty()) return;
+    int t;
+    switch (r.below(6)) {
+      case 0: t = ex.seq.front(); break;                                   // the first node
+      case 1: t = 0; break;                                                // before the first node
+      case 2: t = ex.seq.back(); break;
+      default: t = r.pick(ex.seq); break;                                  // somewhere in the middle
+    }
+    if (t && in_tail(t)) return;
+    ex.set_cursor(t);
+  };
+  auto rand_const = [&]() {
+    static const size_t sizes[] = {1, 2, 4, 4, 8, 8, 16, 32, 64};
+    if (!consts.empty() && r.chance(1, 3)) return r.pick(consts);          // a duplicate: must be shared
+    std::vector<uint8_t> d(sizes[r.below(9)]);
+    for (auto& b : d) b = (uint8_t)(1 + r.below(3));
+    if (d.size() >= 8 && r.chance(1, 2)) for (size_t i = 0; i < d.size(); i++) d[i] = d[i % 4];   // halves/quarters collide
+    return d;
+  };
+  auto use_const = [&](const BaseMem& m, size_t size) {
+    Call c; c.kind = KInst;
+    if (su.is_a64()) {
+      namespace I = a64::Inst;
+      if (size == 8) { c.inst_id = I::kIdLdr; c.ops[0].copy_from(a64::x((unsigned)r.below(29))); }
+      else if (size == 4) { c.inst_id = I::kIdLdr; c.ops[0].copy_from(a64::w((unsigned)r.below(29))); }
+      else if (size == 16) { c.inst_id = I::kIdLdr_v; c.ops[0].copy_from(a64::q((unsigned)r.below(32))); }
+      else return;
+      c.ops[1].copy_from(m); c.nops = 2;
+    }
+    else {
+      namespace I = x86::Inst;
+      bool x64 = su.arch == Arch::kX64;
+      unsigned gid = (unsigned)r.below(x64 ? 16 : 8); if (gid == 4) gid = 3;
+      unsigned vid = (unsigned)r.below(x64 ? 16 : 8);
+      switch (size) {
+        case 1: c.inst_id = I::kIdMovzx; c.ops[0].copy_from(x86::gpd(gid)); break;
+        case 2: c.inst_id = r.chance(1, 2) ? I::kIdMovzx : I::kIdMovsx; c.ops[0].copy_from(x86::gpd(gid)); break;
+        case 4: c.inst_id = r.chance(1, 2) ? I::kIdMov : I::kIdAdd; c.ops[0].copy_from(x86::gpd(gid)); break;
+        case 8: if (x64) { c.inst_id = r.chance(1, 2) ? I::kIdMov : I::kIdXor; c.ops[0].copy_from(x86::gpq(gid)); } else { c.inst_id = I::kIdMovq; c.ops[0].copy_from(x86::xmm(vid)); } break;
+        case 16: c.inst_id = r.chance(1, 2) ? I::kIdMovaps : I::kIdPaddd; c.ops[0].copy_from(x86::xmm(vid)); break;
+        case 32: c.inst_id = I::kIdVmovups; c.ops[0].copy_from(x86::ymm(vid)); break;
+        default: c.inst_id = I::kIdVmovups; c.ops[0].copy_from(x86::zmm(vid)); break;
+      }
+      c.ops[1].copy_from(m); c.nops = 2;
+    }
+    g.comment_maybe(c);
+    ex.emit(c);
+  };
+
+  unsigned n = 6 + (unsigned)r.below(steps);
+  unsigned nfuncs = 0;
+  for (unsigned i = 0; i < n && ex.usable(); i++) {
+    unsigned c = (unsigned)r.below(100);
+    if (c < 28) ex.emit(g.inst());
+    else if (c < 52) {                                   // a constant and (mostly) an instruction that references it
+      unsigned scope = ex.in_function() && r.chance(3, 5) ? 0u : 1u;
+      std::vector<uint8_t> d = rand_const();
+      BaseMem m;
+      if (ex.new_const(scope, d, m)) { consts.push_back(d); if (r.chance(4, 5)) use_const(m, d.size()); }
+    }
+    else if (c < 64) {                                   // functions
+      if (!ex.in_function()) { if (ex.cur && !in_region(ex.cur) && nfuncs < 4) { ex.add_func(); nfuncs++; } }
+      else {
+        if (r.chance(1, 2)) { if (r.chance(1, 2)) move_cursor(); else ex.section((uint32_t)r.below(su.nsections)); }   // the cursor is elsewhere at end_func
+        ex.end_func();
+      }
+    }
+    else if (c < 72) ex.section((uint32_t)r.below(su.nsections));
+    else if (c < 82) move_cursor();
+    else if (c < 88) { switch (r.below(3)) { case 0: ex.emit(g.data()); break; case 1: ex.emit(g.comment()); break; default: ex.emit(g.align()); break; } }
+    else if (c < 92) {
+      std::vector<uint32_t> free_;
+      for (uint32_t l = 0; l < nl; l++) if (!bound[l]) free_.push_back(l);
+      if (!free_.empty() && !in_tail(ex.cur ? ex.cur : ex.seq.front())) { uint32_t l = r.pick(free_); bound[l] = true; ex.bind(l); }
+    }
+    else ex.emit(g.inst());
+    // never leave the cursor behind an epilog while the program goes on
+    if (ex.usable() && ex.cur && in_tail(ex.cur) && !ex.in_function()) ex.set_cursor(ex.fns.back().e);
+  }
+  if (ex.usable() && ex.in_function()) {
+    if (r.chance(1, 2)) { if (r.chance(1, 2)) move_cursor(); else ex.section((uint32_t)r.below(su.nsections)); }
+    ex.end_func();
+  }
+  // the cursor is anywhere when finalize() is called: the global pool must not care
+  if (ex.usable() && r.chance(3, 4)) { if (r.chance(2, 3)) move_cursor(); else ex.section((uint32_t)r.below(su.nsections)); }
+  ex.finalize();
+}
+
+// ---------------------------------------------------------------------------------------------------------
 // script mode: edit scripts exported by TLC from BuilderImpl.tla
 // ---------------------------------------------------------------------------------------------------------
 static void script_exec(FILE* out, const vj::Value& s, unsigned x, vj::Rng& r) {
@@ -1072,6 +1313,15 @@ int main(int argc, char** argv) {
     unsigned nexec = (unsigned)atoi(argv[3]), steps = (unsigned)atoi(argv[4]);
     vj::Rng r(vj::env_seed());
     for (unsigned x = 0; x < nexec; x++) random_exec(out, r, x, steps);
+    fclose(out);
+    return 0;
+  }
+  if (mode == "cpool" && argc >= 5) {
+    FILE* out = fopen(argv[2], "w");
+    vj::install_abort_handlers(out);
+    unsigned nexec = (unsigned)atoi(argv[3]), steps = (unsigned)atoi(argv[4]);
+    vj::Rng r(vj::env_seed());
+    for (unsigned x = 0; x < nexec; x++) cpool_exec(out, r, x, steps);
     fclose(out);
     return 0;
   }
